@@ -44,7 +44,7 @@ def gopher0Line (srv : ServerId) (e : Entry) : Option Str :=
 def linkUrl (srv : ServerId) (e : Entry) : Option Str :=
   if startsUrl e.selector then urlTail e.selector
   else if e.isLocal then quote e.selector
-  else e.geturl srv.name 70
+  else e.geturl srv.name srv.port
 
 /-- Gemini / Spartan flavour: empty quoted selector becomes "/", type 7 gets the query prefix -/
 def gemUrl (srv : ServerId) (queryPrefix : Option Str) (e : Entry) : Option Str :=
@@ -55,7 +55,7 @@ def gemUrl (srv : ServerId) (queryPrefix : Option Str) (e : Entry) : Option Str 
       match queryPrefix with
       | some qp => if e.type == some (lit "7") then qp ++ u else u
       | none => u
-  else e.geturl srv.name 70
+  else e.geturl srv.name srv.port
 
 /-! ## HTTP -/
 
